@@ -45,6 +45,16 @@ const (
 	WriteCoilValueOff uint16 = 0
 )
 
+// Limits on the quantity field of a request, from the Modbus Application
+// Protocol specification V1.1b3. A quantity of zero or above the limit is
+// answered with exception ExcIllegalValue.
+const (
+	MaxReadBits       = 2000
+	MaxReadRegisters  = 125
+	MaxWriteCoils     = 1968
+	MaxWriteRegisters = 123
+)
+
 // minRequestLen is the minimum number of PDU bytes for a request with
 // the given function code (not including slave address or checksum,
 // which are part of the ADU).
